@@ -28,6 +28,7 @@ from __future__ import annotations
 import ast
 import re
 
+from ..roles import node_calls
 from ..core import AnalysisError, RuleContext, need, norm, short
 from ..model import walk_scope
 
@@ -408,23 +409,64 @@ def check_comparison(ctx):
             ctx.ok("C03.3", f.qualname, f"regex specifier: {norm(calls[0])}")
         else:
             ctx.bad("C03.3", f, p_arm.body[0], "a regex dtype specifier is not matched against the dtype name")
-    # a miss returns a non-empty message
-    miss = [st for st in walk_scope(f.node) if isinstance(st, ast.If) and norm(st.test) == "not in_dtypes"]
-    need(miss, "C03.3: `if not in_dtypes` not found")
-    for rt in [x for x in ast.walk(miss[0]) if isinstance(x, ast.Return)]:
-        v = rt.value
-        nonempty = isinstance(v, ast.JoinedStr) or (isinstance(v, ast.Constant) and isinstance(v.value, str) and v.value != "")
-        if not nonempty:
-            ctx.bad("C03.3", f, rt, "a dtype mismatch does not return a non-empty message (the check would accept)")
+    # what happens after the loop, walked on the CFG for both values of the accumulator ("some specifier
+    # matched"): a miss must end in a non-empty message before the shape stage, a hit must not
+    from ..absim import eval_bool, simulate
+    from ..roles import roles_for
+    from ..typestate import NoReturn
+
+    r = roles_for(m)
+    g = NoReturn(m).cfg(f)
+    hdr = next((n for n in g.live_nodes() if n.kind == "for" and n.ast is lp), None)
+    need(hdr is not None, "C03.3: the dtype loop is not in the CFG")
+    in_loop = {x.id for st in lp.body for a_ in ast.walk(st) if isinstance(a_, ast.Assign) for t in a_.targets for x in ast.walk(t) if isinstance(x, ast.Name)}
+    inits = [st for st in walk_scope(f.node) if isinstance(st, ast.Assign) and len(st.targets) == 1 and isinstance(st.targets[0], ast.Name)
+             and st.targets[0].id in in_loop and isinstance(st.value, ast.Constant) and isinstance(st.value.value, bool)
+             and not any(st is y for b_ in lp.body for y in ast.walk(b_))]
+    accs = {st.targets[0].id for st in inits}
+    need(len(accs) == 1, f"C03.3: the 'some specifier matched' accumulator of the dtype loop was not recognised (candidates {sorted(accs)})")
+    acc = accs.pop()
+    if any(st.value.value is not False for st in inits):
+        ctx.bad("C03.3", f, lp, f"{acc} is not initialised to False before the loop", construct="in_dtypes init")
+    after = [s_ for k, s_ in hdr.succ if k == "done"]
+    need(after, "C03.3: the dtype loop has no exit")
+
+    def stage_end(n):
+        if n.kind in ("return", "raise", "exit", "exit_e", "exit_b", "falloff"):
+            return True
+        return any(r.role_of_call(f, c) == "get_shape_memo" or (isinstance(c.func, ast.Attribute) and c.func.attr == "_check_shape") for c in node_calls(n))
+
+    def unknown(e):
+        return None
+
+    for val, label in (("false", "miss"), ("true", "hit")):
+        outs = simulate(g, after[0], stage_end, lambda n: eval_bool(n.ast, unknown), None, None, env0={acc: val})
+        need(outs, "C03.3: nothing follows the dtype loop")
+        for o in outs:
+            rv = o.end.ast.value if o.end.kind == "return" else None
+            rejecting = o.end.kind == "return" and (isinstance(rv, ast.JoinedStr) or (
+                isinstance(rv, ast.Constant) and isinstance(rv.value, str) and rv.value != "") or (
+                isinstance(rv, ast.Name) and o.env.get(rv.id) == "nonempty"))
+            if o.end.kind == "return" and isinstance(rv, ast.Name) and o.env.get(rv.id) not in ("empty", "nonempty"):
+                raise AnalysisError(f"C03.3: cannot tell what `{norm(o.end.ast)}` returns after the dtype loop")
+            if val == "false" and not rejecting:
+                ctx.bad("C03.3", f, o.end.ast if o.end.ast is not None else lp, "a dtype mismatch does not return a non-empty message (the check would accept)")
+                break
+            if val == "true" and rejecting:
+                ctx.bad("C03.3", f, o.end.ast, "a dtype that matches one of the category's specifiers is rejected all the same")
+                break
         else:
-            ctx.ok("C03.3", f.qualname, "dtype miss returns a non-empty message (reject)")
-    # the loop accumulates with break-on-hit: `in_dtypes` initialised False
-    init = [st for st in walk_scope(f.node) if isinstance(st, ast.Assign) and norm(st.targets[0]) == "in_dtypes" and isinstance(st.value, ast.Constant)]
-    if not any(st.value.value is False for st in init):
-        ctx.bad("C03.3", f, lp, "in_dtypes is not initialised to False before the loop", construct="in_dtypes init")
-    # the sentinel guard
-    guards = [st for st in walk_scope(f.node) if isinstance(st, ast.If) and "dtypes is not _any_dtype" in norm(st.test)]
-    if not guards or not any(x is lp for x in ast.walk(guards[0])):
+            ctx.ok("C03.3", f.qualname, "dtype miss returns a non-empty message (reject)" if val == "false" else "dtype hit goes on to the shape stage")
+    # the sentinel guard: for the any-dtype category the loop is never reached
+    def sentinel_atom(e):
+        t = norm(e)
+        if isinstance(e, ast.Compare) and len(e.ops) == 1 and isinstance(e.ops[0], (ast.Is, ast.IsNot)) and "_any_dtype" in t and "dtypes" in t:
+            return isinstance(e.ops[0], ast.Is)
+        return None
+
+    outs = simulate(g, g.entry, lambda n: n is hdr or n.kind in ("return", "raise", "exit", "exit_e", "exit_b", "falloff"),
+                    lambda n: eval_bool(n.ast, sentinel_atom), None, None)
+    if any(o.end is hdr for o in outs):
         ctx.bad("C03.3", f, lp, "the dtype loop is not guarded by the any-dtype sentinel test", construct="sentinel guard")
     else:
         ctx.ok("C03.3", f.qualname, "dtype test skipped only for the any-dtype sentinel")
@@ -516,12 +558,27 @@ def check_name_extraction_shape(ctx):
     reaches the comparison is derived from obj.dtype and nothing else."""
     m = ctx.model
     f = m.func("_array_types._MetaAbstractArray.__instancecheck_str__")
-    defs = [st for st in walk_scope(f.node) if isinstance(st, ast.Assign) and any(isinstance(t, ast.Name) and t.id == "dtype" for t in st.targets)]
-    defs += [st for st in walk_scope(f.node) if isinstance(st, ast.Assign) and any(isinstance(t, ast.Tuple) and any(isinstance(e, ast.Name) and e.id == "dtype" for e in ast.walk(t)) for t in st.targets)]
+    # names that hold something derived from obj.dtype (fixpoint over the assignments of the function:
+    # robust against the extraction ladder living in a helper that was inlined back, renamed temporaries ...)
+    assigns = [st for st in walk_scope(f.node) if isinstance(st, ast.Assign)]
+    derived = set()
+    changed = True
+    while changed:
+        changed = False
+        for st in assigns:
+            val_names = {n.id for n in ast.walk(st.value) if isinstance(n, ast.Name)}
+            from_obj = any(isinstance(n, ast.Attribute) and norm(n).startswith("obj.dtype") for n in ast.walk(st.value))
+            if from_obj or (val_names & derived):
+                for t in st.targets:
+                    for x in ast.walk(t):
+                        if isinstance(x, ast.Name) and x.id not in derived:
+                            derived.add(x.id)
+                            changed = True
+    defs = [st for st in assigns if any(isinstance(x, ast.Name) and x.id == "dtype" for t in st.targets for x in ast.walk(t))]
     ctx.counters["dtype_name_definitions"] = len(defs)
     for st in defs:
-        srcs = {norm(n) for n in ast.walk(st.value) if isinstance(n, ast.Attribute) and norm(n).startswith("obj.")}
-        roots = {n.id for n in ast.walk(st.value) if isinstance(n, ast.Name)} - {"str", "repr", "obj", "dtype"}
+        val_names = {n.id for n in ast.walk(st.value) if isinstance(n, ast.Name)}
+        from_obj = any(isinstance(n, ast.Attribute) and norm(n).startswith("obj.dtype") for n in ast.walk(st.value))
         helper_of_obj = isinstance(st.value, ast.Call) and m.resolve_call(f, st.value).kind == "func" and any(isinstance(a, ast.Name) and a.id == "obj" for a in st.value.args)
         if helper_of_obj:
             h = m.resolve_call(f, st.value).target
@@ -530,10 +587,12 @@ def check_name_extraction_shape(ctx):
                 ctx.ok("C03.3", f.qualname, f"dtype name derived from obj.dtype in the helper {h.name}")
             else:
                 raise AnalysisError(f"C03.3: the dtype name comes from helper `{h.name}`, in which no read of `.dtype` was recognised")
-        elif not any(s.startswith("obj.dtype") for s in srcs) and "dtype" not in {n.id for n in ast.walk(st.value) if isinstance(n, ast.Name)}:
-            ctx.bad("C03.3", f, st, "the dtype name compared with the category is not derived from obj.dtype")
-        else:
+        elif from_obj or (val_names & (derived | {"dtype"})):
             ctx.ok("C03.3", f.qualname, f"dtype name derived from obj.dtype: `{short(st, 70)}`")
+        elif isinstance(st.value, ast.Constant):
+            ctx.ok("C03.3", f.qualname, f"a constant dtype name: `{short(st, 70)}`")
+        else:
+            ctx.bad("C03.3", f, st, "the dtype name compared with the category is not derived from obj.dtype")
 
 
 def check_no_memo_between_dtype_and_verdict(ctx):
